@@ -33,8 +33,10 @@ def run(ctx):
     import contracts.wire     # noqa: F401
     from pyvc.contract import REGISTRY
     from pyvc import run as prun
-    cs = [c for c in REGISTRY.values() if 'C06' in c.props and c.__class__.__module__ == 'contracts.wire']
-    prun.run_contracts(ctx, cs, 'contracts.wire')
+    import contracts.corecircuits     # noqa: F401
+    for mod in ('contracts.wire', 'contracts.corecircuits'):
+        cs = [c for c in REGISTRY.values() if 'C06' in c.props and c.__class__.__module__ == mod]
+        prun.run_contracts(ctx, cs, mod)
     ctx.assume('builder model (contracts/wiremodel.py): a wire is (bitwidth, den); Block.add_net is modelled '
                'as [obligation: WF_net] + [dest.den := documented value of the primitive]; WireVector / Const / '
                'LogicNet constructors modelled as records; Const(int) through the _convert_int contract')
@@ -42,7 +44,8 @@ def run(ctx):
                             'operator result differs from the exact integer result')
     ctx.assume('z3 soundness; spec/netsem.py; spec functions in fam/cases_ops.py state the documented result')
     return ctx.finish('other', './check C06', ['z3', 'pyvc', 'spec/netsem.py', 'elab/n2smt.py'],
-                      'P: (len, den) contracts of _two_var_op, __invert__, __getitem__, _extend_with_bit, concat '
+                      'P: (len, den) contracts of _two_var_op, __invert__, __getitem__, _extend_with_bit, concat, select, '
+                      'signed_add / signed_lt / signed_gt (two\'s-complement reading) '
                       'discharged by z3 for all widths and values over the builder model; bounded stand-in: '
                       'each operator/helper elaborated by the real code per width combination; all operand '
                       'values decided by SMT')
